@@ -47,6 +47,10 @@ class Fault(OSError):
     pass
 
 
+class FaultInterrupt(KeyboardInterrupt):
+    """a failure that is not an Exception (Ctrl-C while saving)"""
+
+
 class ContainsArrayError(ValueError):
     pass
 
@@ -127,7 +131,7 @@ class FS:
             return
         self.n += 1
         if self.n == self.k:
-            raise Fault("injected fault at a write operation")
+            raise (FaultInterrupt if getattr(self, "interrupt", False) else Fault)("injected fault at a write operation")
 
     # ---- raw state
     def snapshot(self):
@@ -486,11 +490,23 @@ class _Zip:
         members[arc] = self.fs.files[full]
         return z.replace(members=members)
 
+    def namelist(self):
+        return ["/".join(str(c) for c in arc) for arc in self.fs.files[self.path].members]
+
+    def infolist(self):
+        return [types.SimpleNamespace(filename=n) for n in self.namelist()]
+
+    def extract(self, member, path=None):
+        self.extractall(path, members=[member])
+
     @untraced
-    def extractall(self, dest):
+    def extractall(self, dest, members=None):
         z = self.fs.files[self.path]
         dest = _p(dest)
+        keep = None if members is None else {_p(getattr(m, "filename", m)) for m in members}
         for arc, c in z.members.items():
+            if keep is not None and arc not in keep:
+                continue
             self.fs.files[dest + arc] = c
             self.fs._mkparents((dest + arc)[:-1])
 
@@ -521,7 +537,27 @@ def install(fs):
     os_ = types.SimpleNamespace(path=os_path, remove=fs.remove, walk=fs.walk, makedirs=fs.makedirs,
                                 replace=fs.replace, rename=fs.replace, close=lambda fd: None, unlink=fs.remove,
                                 getpid=lambda: 4242, fspath=lambda p: str(p))
-    shutil_ = types.SimpleNamespace(rmtree=fs.rmtree, move=fs.replace)
+    def copytree(src, dst, dirs_exist_ok=False, **k):
+        src, dst = _p(src), _p(dst)
+        if dst in fs.dirs and not dirs_exist_ok:
+            raise FileExistsError(str(dst))
+        fs.tick("copytree")
+        fs._mkparents(dst)
+        for d in [d for d in list(fs.dirs) if d == src or _under(d, src)]:
+            fs.dirs.add(dst + d[len(src):])
+        for f in [f for f in list(fs.files) if _under(f, src)]:
+            fs.files[dst + f[len(src):]] = fs.files[f]
+        return dst
+
+    def copyfile(src, dst, **k):
+        src, dst = _p(src), _p(dst)
+        if src not in fs.files:
+            raise FileNotFoundError(str(src))
+        fs.write(dst, fs.files[src], what="copy")
+        return dst
+
+    shutil_ = types.SimpleNamespace(rmtree=fs.rmtree, move=fs.replace, copytree=copytree, copyfile=copyfile, copy=copyfile,
+                                    copy2=copyfile)
     tempfile_ = types.SimpleNamespace(TemporaryDirectory=lambda *a, **k: _TmpDir(fs), mkdtemp=fs.mkdtemp,
                                       mkstemp=fs.mkstemp)
 
